@@ -349,7 +349,20 @@ def run(db: DB, rep: Report) -> None:
         raise AnalysisError("FlowGraph.__prune not found")
     pruned_cls: Set[str] = set()
     pruned_lits: Set[Tuple[str, str]] = set()
-    for n in walk_no_nested(prune.node):
+    prune_fns = [prune] + [g for _, gs in db.callees(prune) for g in gs if g.cls is fg]
+    lit_guarded: Set[str] = set()
+    for pf in prune_fns[1:]:
+        # predicate helper:  if isinstance(node, C): return node.get_type() == "<lit>"
+        for r_ in [n for n in walk_no_nested(pf.node) if isinstance(n, ast.Return) and n.value is not None]:
+            if isinstance(r_.value, ast.Compare) and "get_type" in paths.called_names([r_.value]) and \
+                    isinstance(r_.value.comparators[0], ast.Constant):
+                for t, pol in paths.guards(r_, stop=pf.node):
+                    for a, p_ in paths.conjuncts(t, pol):
+                        if p_ and isinstance(a, ast.Call) and norm(a.func) == "isinstance" and \
+                                isinstance(a.args[1], ast.Name):
+                            pruned_lits.add((a.args[1].id, r_.value.comparators[0].value))
+                            lit_guarded.add(a.args[1].id)
+    for n in [x for pf in prune_fns for x in walk_no_nested(pf.node)]:
         # node == OtherNode("StartLoop") (possibly through a local)
         if isinstance(n, ast.Compare) and len(n.ops) == 1 and isinstance(n.ops[0], ast.Eq):
             for side in (n.left, n.comparators[0]):
@@ -376,10 +389,12 @@ def run(db: DB, rep: Report) -> None:
                     if isinstance(v, ast.Compare) and "get_type" in paths.called_names([v]) and \
                             isinstance(v.comparators[0], ast.Constant):
                         lit = v.comparators[0].value
-            if lit is None:
+            if lit is None and cname not in lit_guarded:
                 pruned_cls.add(cname)
-            else:
+            elif lit is not None:
                 pruned_lits.add((cname, lit))
+    if not pruned_cls:
+        raise AnalysisError("the node kinds FlowGraph.__prune removes were not recognised")
 
     def is_pruned(kind: str) -> bool:
         base = kind.split("(")[0]
@@ -803,6 +818,24 @@ def run(db: DB, rep: Report) -> None:
     if n_k11 < 1:
         raise AnalysisError("no node built from a collection with a loop over the same collection found (K11)")
 
+    # ---- K14 the metrics header of a loop waits for the fibers it traces ---------------------
+    # (Collector.make_loop_header emits <fiber>.trace("eager_..._read") for the eagerly buffered
+    # tensors iterated at that rank)
+    rep.rule("K14", "MetricsHeaderNode(rank) is ordered after the fibers its statement traces", 1)
+    hdr_in = [(f_, n_) for f_, n_, sk, dk in sites if "FiberNode" in sk and "MetricsHeaderNode" in dk]
+    feeds = [(f_, n_) for f_, n_, sk, dk in sites if "FiberNode" in sk and "LoopNode" in dk]
+    if not feeds:
+        raise AnalysisError("no FiberNode -> LoopNode edge found in FlowGraph (K14)")
+    mlh = db.func("teaal.trans.collector.Collector.make_loop_header")
+    traces_fibers = "trace_tree" in paths.called_names([mlh.node])
+    rep.check("K14", bool(hdr_in) or not traces_fibers, db.loc(feeds[0][1]), "FlowGraph",
+              "FiberNode->MetricsHeaderNode",
+              "the fibers iterated at a rank precede that rank's metrics header",
+              "FlowGraph gives MetricsHeaderNode(rank) an edge from the enclosing loop only, although the header "
+              "statement traces the fibers iterated at that rank (Collector.make_loop_header -> trace_tree): "
+              "when such a fiber is bound between the two loops (getPayload of a flattened rank, dynamic "
+              "partitioning) the header is sorted before the statement that binds it")
+
     # ---- K13 every input tensor gets its root fiber -------------------------------------------
     rep.rule("K13", "the per-tensor loop of FlowGraph.__build gives every input tensor a GetRootNode", 1)
     bld = fg.methods.get("__build")
@@ -813,7 +846,8 @@ def run(db: DB, rep: Report) -> None:
         return isinstance(n, ast.Call) and isinstance(n.func, ast.Attribute) and \
             n.func.attr == "__build_swizzle_root_fiber"
     tloops = [n for n in walk_no_nested(bld.node) if isinstance(n, ast.For) and
-              "get_tensors" in paths.called_names([n.iter]) and any(is_root_call(x) for x in ast.walk(n))]
+              "get_tensors" in paths.called_names([paths.resolve_flow(n.iter, n, bld.node, depth=2)]) and
+              any(is_root_call(x) for x in ast.walk(n))]
     if len(tloops) != 1:
         rep.undecided("K13", db.loc(bld.node), bld.short, "the per-tensor loop calling __build_swizzle_root_fiber "
                       "was not found")
@@ -1230,15 +1264,57 @@ def _check_hoist_runs(db: DB, rep: Report, h: FuncInfo, slice_ins, dels) -> None
     rep.check("K4", "reversed" in paths.called_names([rl.iter]), db.loc(rl), h.short, "hoist:innermost-first",
               "loops are processed innermost first (reversed loop order)",
               "__hoist no longer processes the innermost loop first")
-    desc = {n.targets[0].id for n in walk_no_nested(rl) if isinstance(n, ast.Assign) and
-            isinstance(n.targets[0], ast.Name) and isinstance(n.value, ast.Call) and
+    def _tgt_name(n):
+        t = n.targets[0] if isinstance(n, ast.Assign) else n.target
+        return t.id if isinstance(t, ast.Name) else None
+    desc = {_tgt_name(n) for n in walk_no_nested(rl) if isinstance(n, (ast.Assign, ast.AnnAssign)) and
+            _tgt_name(n) and isinstance(n.value, ast.Call) and
             norm(n.value.func).endswith("descendants") and len(n.value.args) == 2 and
-            norm(n.value.args[1]) == "LoopNode(%s)" % rank_var}
-    idx = {n.targets[0].id for n in walk_no_nested(rl) if isinstance(n, ast.Assign) and
-           isinstance(n.targets[0], ast.Name) and isinstance(n.value, ast.Call) and
-           norm(n.value.func) == "self.sorted.index" and norm(n.value.args[0]) == "LoopNode(%s)" % rank_var}
+            paths.inlined_text(n.value.args[1], fn) == "LoopNode(%s)" % rank_var}
+    idx = {_tgt_name(n) for n in walk_no_nested(rl) if isinstance(n, (ast.Assign, ast.AnnAssign)) and
+           _tgt_name(n) and isinstance(n.value, ast.Call) and
+           norm(n.value.func) == "self.sorted.index" and
+           paths.inlined_text(n.value.args[0], fn) == "LoopNode(%s)" % rank_var}
     for ins in slice_ins:
         sl = ins.targets[0].slice
+        # stable partition: sorted[L : L + 1 + len(body)] = [not in desc] + [sorted[L]] + [in desc]
+        parts = []
+        v_ = ins.value
+        while isinstance(v_, ast.BinOp) and isinstance(v_.op, ast.Add):
+            parts.insert(0, v_.right)
+            v_ = v_.left
+        parts.insert(0, v_)
+        if len(parts) == 3 and isinstance(sl.lower, ast.Name) and sl.lower.id in idx:
+            def comp_of(e):
+                r_ = paths.resolve_flow(e, ins, fn, depth=1)
+                return r_ if isinstance(r_, ast.ListComp) and len(r_.generators) == 1 else None
+            a_, b_ = comp_of(parts[0]), comp_of(parts[2])
+            mid_ok = norm(parts[1]) == "[self.sorted[%s]]" % sl.lower.id
+
+            def filt(c):
+                """+1: 'x not in desc', -1: 'x in desc', 0: anything else"""
+                if c is None or len(c.generators[0].ifs) != 1:
+                    return 0
+                t = c.generators[0].ifs[0]
+                if isinstance(t, ast.Compare) and len(t.ops) == 1 and isinstance(t.comparators[0], ast.Name) \
+                        and t.comparators[0].id in desc and norm(t.left) == norm(c.elt) == norm(c.generators[0].target):
+                    return 1 if isinstance(t.ops[0], ast.NotIn) else -1 if isinstance(t.ops[0], ast.In) else 0
+                return 0
+            same_src = a_ is not None and b_ is not None and norm(a_.generators[0].iter) == norm(b_.generators[0].iter)
+            src = paths.resolve_flow(a_.generators[0].iter, ins, fn, depth=1) if a_ is not None else None
+            src_ok = isinstance(src, ast.Subscript) and norm(src.value) == "self.sorted" and \
+                isinstance(src.slice, ast.Slice) and norm(src.slice.lower) == "%s + 1" % sl.lower.id
+            recognised = a_ is not None and b_ is not None and filt(a_) != 0 and filt(b_) != 0
+            rep.check("K4", filt(a_) == 1 and filt(b_) == -1 and mid_ok and same_src and src_ok and bool(desc),
+                      db.loc(ins), h.short, "hoist-guard:partition",
+                      "nodes that are not descendants of LoopNode(%s) are moved in front of it, in order" % rank_var,
+                      "the partition of the loop body in __hoist does not put exactly the nodes that are 'not in "
+                      "descendants(LoopNode(%s))' in front of the loop node (filters: %s / %s): a statement can "
+                      "be hoisted above a loop it depends on" %
+                      (rank_var, norm(a_.generators[0].ifs[0]) if a_ is not None and a_.generators[0].ifs else "?",
+                       norm(b_.generators[0].ifs[0]) if b_ is not None and b_.generators[0].ifs else "?"),
+                      decided=recognised)
+            continue
         at_loop = isinstance(sl.lower, ast.Name) and isinstance(sl.upper, ast.Name) and \
             sl.lower.id == sl.upper.id and sl.lower.id in idx
         run = ins.value
